@@ -113,7 +113,16 @@ def resume_task(args):
                 continue
             h0 = sd_hash(sd)
             broke = False
+            # second generation: half of the runs are saved and reloaded once more, half-way through the continuation
+            regen_at = k + (len(beh) - k) // 2 if (k % 2 == 0 and len(beh) - k >= 2) else None
             for i, ev in enumerate(beh[k:], start=k):
+                if regen_at is not None and i == regen_at:
+                    try:
+                        b2, _ = save_and_reload(b2, draw)
+                    except Exception as ex:
+                        mm.append((i, f"resume.load_failed.k{k}", "second-generation checkpoint loads", f"{type(ex).__name__}: {str(ex)[:120]}"))
+                        broke = True
+                        break
                 if ev["ev"] == "SetHyper":
                     b2.do_sethyper(ev)
                 else:
